@@ -39,13 +39,13 @@ func (l *lexer) Error(e string) {
 
 %%
 
-segments :
-    segment
-    | segments segment
+path :
+    segments
+    | segments kywd_slash
 
-segment :
+segments :
     stmt
-    | stmt kywd_slash 
+    | segments kywd_slash stmt
 
 qname :
     token_name {
